@@ -1130,6 +1130,8 @@ class Unit:
                         raise Undecided(f"E7: guard of {key} is alive across an await in a tail expression")
                 if not any(x["k"] in ("continue", "break", "return") and x["span"][0] == last["span"][0] for x in nodes):
                     eds.append((last["span"][0], last["span"][0], " proof { ghost_unlock(w); } ", None))
+            elif any(x["k"] in ("continue", "break", "return") and x["span"][0] == last["span"][0] for x in nodes):
+                pass      # the block ends in `return;` / `break;` / `continue;`: nothing is reachable after it
             else:
                 pos = blk["close"] - 1
                 eds.append((pos, pos, " proof { ghost_unlock(w); } ", None))
